@@ -291,6 +291,16 @@ def run_check(prop, tier, seed, replay=None):
                                      note="the correspondence stream did not terminate within %d s against this tree" % hto, tail=out[-2000:]))
                     violations.append((p, "no-failing-input-found"))
                     continue
+                if rc == 2 and "panic:" in out:
+                    # the stream's own driver assertions (a set-up step that the model says must succeed was refused,
+                    # an observation that cannot be taken) stop it with a Go panic: against this tree the
+                    # correspondence cannot be established, which is reported - never on the unchanged tree
+                    i = out.find("panic:")
+                    p = write_replay(prop, "stream_stopped_" + st, dict(property=prop, kind="stream-stopped", stream=st, seed=seed, tier=tier,
+                                     note="the correspondence stream could not be driven against this tree: a step the harness relies on failed",
+                                     panic=out[i:i + 3000]))
+                    violations.append((p, "no-failing-input-found"))
+                    continue
                 if rc != 0:
                     raise Internal("harness %s failed (rc=%d):\n%s" % (st, rc, out[-3000:]))
                 rep = json.load(open(os.path.join(outdir, "report.json")))
